@@ -234,28 +234,43 @@ deriving Repr, Inhabited
 		fail("ValidateNodeGroup not found")
 	}
 	x.recv = fd.Type.Params.List[0].Names[0].Name
+	// collect every checkThat(cond, msg, ...) call inside a node, in source order: as a statement of its own, or as an
+	// element of a slice literal / an argument of append (table-driven forms of the same function)
+	collect := func(n ast.Node, guard string) {
+		ast.Inspect(n, func(nd ast.Node) bool {
+			if _, isFunc := nd.(*ast.FuncLit); isFunc {
+				return false // the body of the checkThat closure itself
+			}
+			call, ok := nd.(*ast.CallExpr)
+			if !ok {
+				return true
+			}
+			if id, ok := call.Fun.(*ast.Ident); ok && id.Name == "checkThat" && len(call.Args) >= 2 {
+				c := x.expr(call.Args[0])
+				if guard != "" {
+					c = "((!" + guard + ") || " + c + ")"
+				}
+				checks = append(checks, c)
+				msg := "?"
+				if bl, ok := call.Args[1].(*ast.BasicLit); ok {
+					msg = bl.Value
+				}
+				msgs = append(msgs, msg)
+				return false
+			}
+			return true
+		})
+	}
 	var walk func(stmts []ast.Stmt, guard string)
 	walk = func(stmts []ast.Stmt, guard string) {
 		for _, st := range stmts {
 			switch s := st.(type) {
 			case *ast.ExprStmt:
-				call, ok := s.X.(*ast.CallExpr)
-				if !ok {
-					continue
-				}
-				if id, ok := call.Fun.(*ast.Ident); ok && id.Name == "checkThat" && len(call.Args) >= 2 {
-					c := x.expr(call.Args[0])
-					if guard != "" {
-						c = "((!" + guard + ") || " + c + ")"
-					}
-					checks = append(checks, c)
-					msg := "?"
-					if bl, ok := call.Args[1].(*ast.BasicLit); ok {
-						msg = bl.Value
-					}
-					msgs = append(msgs, msg)
-				}
+				collect(s, guard)
+			case *ast.DeclStmt:
+				collect(s, guard)
 			case *ast.AssignStmt:
+				collect(s, guard)
 				// x := <expr> (single, simple): inline
 				if s.Tok == token.DEFINE && len(s.Lhs) == 1 && len(s.Rhs) == 1 {
 					if id, ok := s.Lhs[0].(*ast.Ident); ok {
